@@ -7,7 +7,7 @@ from mgverif.prog import Interp
 from mgverif.oracle import Shadow
 from mgverif import mgrun
 from mgverif.gen import build as B
-from mgverif.gen.inplace import gen_history, add_readout
+from mgverif.gen.inplace import gen_history, add_readout, grow, epoch_boundary
 
 PID = "C06"
 LEVEL = "exploration"
@@ -20,10 +20,10 @@ RULE = ("seeded random programs: a base (leaf or op output; C/F/strided/negative
         "the view chain, exact), np.shares_memory(v.grad, b.grad); and for every pair of tensors: gradients share memory only if data do. "
         "Non-trivial: >=2 views with a gradient; distinct = structure hash. Evidence lists distinct (first-contributing op, layout) pairs "
         "observed at Operation.backward.")
-ASSUMPTIONS = ["functional programs only (one epoch); in-place histories are C05's", "empty tensors excluded from sharing checks"]
+ASSUMPTIONS = ["functional programs only; in-place histories are C05's", "every fourth program has a second graph epoch over survivors of the cleared graph; there only tensors used by that epoch are observed", "empty tensors excluded from sharing checks"]
 TIERS = {"quick": {"cases": 10000, "nstmts": (3, 10)}, "thorough": {"cases": 300000, "nstmts": (4, 22)}}
-FLOORS = {"quick": {"view_checks": 8000, "pair_checks": 50000},
-          "thorough": {"view_checks": 40000, "pair_checks": 250000}}
+FLOORS = {"quick": {"view_checks": 8000, "pair_checks": 50000, "epoch2_view_checks": 1500},
+          "thorough": {"view_checks": 40000, "pair_checks": 250000, "epoch2_view_checks": 8000}}
 
 
 def gen_case(rng, cfg, idx):
@@ -34,6 +34,18 @@ def gen_case(rng, cfg, idx):
         if L is None:
             continue
         b.prog.append({"k": "backward", "tgt": L, "seed": None})
+        epoch2_from = None
+        if idx % 4 == 3:
+            # a second graph epoch over survivors of the cleared graph (former views included): new views of them, consumers, backward
+            r = epoch_boundary(b, rng, getattr(b, "last_readout", ()))
+            if r is not None:
+                start = len(b.prog)
+                grow(b, rng, r[0][0], rng.randint(3, max(4, cfg["nstmts"][1] // 2)), inplace_w=0, setshape_w=0, view_w=6, read_w=3, nonconst_only=True)
+                L2 = add_readout(b, rng, max_terms=5)
+                if L2 is None:
+                    continue
+                b.prog.append({"k": "backward", "tgt": L2, "seed": None})
+                epoch2_from = start
         views = [n for n in b.tensors() if n.startswith(("w", "v"))]
         post = []
         for v in views:
@@ -50,7 +62,7 @@ def gen_case(rng, cfg, idx):
                 post.append({"k": "backward", "tgt": "yleaf", "seed": ["g", z], "optional": True})
         order = [n for n in b.tensors()]
         rng.shuffle(order)
-        return {"prog": b.prog + post, "L": L, "read_order": order, "cseed": rng.randrange(1 << 30)}
+        return {"prog": b.prog + post, "L": L, "read_order": order, "cseed": rng.randrange(1 << 30), "epoch2_from": epoch2_from}
     return None
 
 
@@ -75,6 +87,15 @@ def run_case(case):
     viol, cnt, sets = [], {"view_checks": 0, "pair_checks": 0, "views_with_grad": 0}, {}
     grads = {}
     order = [n for n in case.get("read_order", []) if n in env] + [n for n in env if n not in case.get("read_order", [])]
+    if case.get("epoch2_from") is not None:
+        # only the tensors the second epoch uses are observed (what a tensor left over from the first epoch reports is outside the property)
+        used = set()
+        for st in prog[case["epoch2_from"]:]:
+            used.update(mgrun.stmt_refs(st))
+            if "out" in st:
+                used.add(st["out"])
+        order = [n for n in order if n in used]
+        cnt["epoch2_cases"] = 1
     for n in order:                      # first read, in the generated order
         if mgrun.is_tensor(env[n]):
             grads[n] = env[n].grad
@@ -93,6 +114,8 @@ def run_case(case):
         if t.constant or bt.constant:
             continue
         cnt["view_checks"] += 1
+        if case.get("epoch2_from") is not None:
+            cnt["epoch2_view_checks"] = cnt.get("epoch2_view_checks", 0) + 1
         gv, gb = grads[n], grads[o]
         kind = next((st["fn"] for st in prog if st.get("out") == n), "?")
         if (gv is None) != (gb is None):
